@@ -42,7 +42,7 @@ def _conds(tier):
         c("01", "-1,-1", clock="duration", vmax=1, special=1)
         c("01", "-1,0", fn="h_run2")
     else:
-        pick = {"000", "111", "222", "012", "120", "201", "011", "100", "221"}
+        pick = {"000", "222", "012", "120", "011", "221"}          # (nine skeleton kinds took 51 min; six keep every kind and tie pattern)
         for kinds, parents in [sk for sk in _skeletons(3) if sk[0] in pick]:
             for cb in (-1, 0, 1, 2):
                 if parents.count("-1") == 3 and cb >= 0:
@@ -52,7 +52,7 @@ def _conds(tier):
                     c(kinds, parents, fixcb=cb, timeout=1500)
         for kinds, parents in _skeletons(2):
             c(kinds, parents, clock="float", special=1, timeout=900)
-            c(kinds, parents, clock="duration", vmax=3, timeout=900)
+            c(kinds, parents, clock="duration", vmax=2, timeout=1500)      # (vmax=3 did not finish for two "now" events)
             c(kinds, parents, clock="duration", vmax=1, special=1, timeout=900)
             c(kinds, parents, fn="h_run2", timeout=900)
         for kinds, parents in (("012", "-1,-1,0"), ("110", "-1,0,1"), ("201", "-1,0,0"), ("011", "-1,0,0")):
